@@ -128,6 +128,7 @@ static std::string snapshot(Session& S, torrent::Download dl, Torrent* /*unused*
   std::string o;
   auto* cl = dl.connection_list();
   for (auto& kv : peers) {
+    if (!kv.second.w || kv.second.w->fd == -1) continue;   // closed by d<i>: its port may be reused by a later peer
     torrent::PeerConnectionBase* pcb = nullptr;
     for (torrent::Peer* p : *cl) {
       auto* c = p->m_ptr();
